@@ -8,6 +8,7 @@ import (
 	"bytes"
 	"encoding/binary"
 	"fmt"
+	"sort"
 
 	"github.com/pokt-network/pocket-core/app"
 	sdk "github.com/pokt-network/pocket-core/types"
@@ -180,8 +181,120 @@ func (s *Sim) buildTx(st *Step) *TxRecord {
 		rec.BuildErr = err.Error()
 		return rec
 	}
+	bz = canonMapOrder(bz)
 	rec.Bytes, rec.Canon = bz, bz
 	return rec
+}
+
+// canonMapOrder makes the encoding of a transaction a function of its content. The generated
+// marshaller of the node stake message writes its reward-delegator map in Go map iteration order,
+// so the same message encodes to different (equally valid) bytes from one call to the next; a
+// client may send any of them. The simulator must not let the Go runtime pick: the map entries
+// (field 6 of the message inside the Any of field 1) are sorted bytewise in place. The entries
+// are contiguous and sorting only permutes them, so every length prefix stays right.
+func canonMapOrder(tx []byte) []byte {
+	l, n := binary.Uvarint(tx)
+	if n <= 0 || int(l) != len(tx)-n {
+		return tx
+	}
+	out := append([]byte{}, tx...)
+	body := out[n:]
+	anyBz := pbField(body, 1)
+	if anyBz == nil {
+		return tx
+	}
+	msgBz := pbField(anyBz, 2)
+	if msgBz == nil || !bytes.Contains(pbField(anyBz, 1), []byte("x.nodes.MsgProtoStake")) {
+		return tx
+	}
+	// collect the runs of field-6 length-delimited entries
+	type ent struct{ lo, hi int }
+	var ents []ent
+	for i := 0; i < len(msgBz); {
+		start := i
+		key, k := binary.Uvarint(msgBz[i:])
+		if k <= 0 {
+			return tx
+		}
+		i += k
+		switch key & 7 {
+		case 0:
+			_, k = binary.Uvarint(msgBz[i:])
+			if k <= 0 {
+				return tx
+			}
+			i += k
+		case 2:
+			ln, k := binary.Uvarint(msgBz[i:])
+			if k <= 0 || i+k+int(ln) > len(msgBz) {
+				return tx
+			}
+			i += k + int(ln)
+			if key>>3 == 6 {
+				ents = append(ents, ent{start, i})
+			}
+		case 1:
+			i += 8
+		case 5:
+			i += 4
+		default:
+			return tx
+		}
+	}
+	if len(ents) < 2 {
+		return tx
+	}
+	for j := 1; j < len(ents); j++ {
+		if ents[j].lo != ents[j-1].hi {
+			return tx
+		}
+	}
+	raw := make([][]byte, len(ents))
+	for j, e := range ents {
+		raw[j] = append([]byte{}, msgBz[e.lo:e.hi]...)
+	}
+	sort.Slice(raw, func(a, b int) bool { return bytes.Compare(raw[a], raw[b]) < 0 })
+	at := ents[0].lo
+	for _, r := range raw {
+		copy(msgBz[at:], r)
+		at += len(r)
+	}
+	return out
+}
+
+// pbField returns the (aliased) payload of the first length-delimited field num of a message.
+func pbField(m []byte, num uint64) []byte {
+	for i := 0; i < len(m); {
+		key, k := binary.Uvarint(m[i:])
+		if k <= 0 {
+			return nil
+		}
+		i += k
+		switch key & 7 {
+		case 0:
+			_, k = binary.Uvarint(m[i:])
+			if k <= 0 {
+				return nil
+			}
+			i += k
+		case 2:
+			ln, k := binary.Uvarint(m[i:])
+			if k <= 0 || i+k+int(ln) > len(m) {
+				return nil
+			}
+			if key>>3 == num {
+				return m[i+k : i+k+int(ln)]
+			}
+			i += k + int(ln)
+		case 1:
+			i += 8
+		case 5:
+			i += 4
+		default:
+			return nil
+		}
+	}
+	return nil
 }
 
 // reencode produces different bytes that must decode to the same signed content.
@@ -229,5 +342,5 @@ func sameSignedContent(a, b []byte, height int64) bool {
 	}
 	ca, e1 := enc(ta, -1)
 	cb, e2 := enc(tb, -1)
-	return e1 == nil && e2 == nil && bytes.Equal(ca, cb)
+	return e1 == nil && e2 == nil && bytes.Equal(canonMapOrder(ca), canonMapOrder(cb))
 }
